@@ -16,6 +16,7 @@ sys.dont_write_bytecode = True
 
 import logging
 logging.disable(logging.CRITICAL)
+sys.unraisablehook = lambda *a, **k: None
 warnings.simplefilter('ignore')
 
 import dd.bdd as _bdd  # noqa: E402
@@ -146,6 +147,8 @@ def show_bool(b):
 
 
 def assignment_str(d):
+    if not d:
+        return '*'
     return '&'.join(sorted(f'{k}={show_bool(v)}' for k, v in d.items()))
 
 
@@ -172,6 +175,62 @@ def dump_state(b):
     if not term_ok:
         s += '|TERMINAL-BROKEN'
     return s
+
+
+SCRATCH = os.path.join(os.path.dirname(os.path.dirname(os.path.abspath(__file__))), '.work', 'scratch')
+
+
+def graph_str(nodes, edges):
+    ns = ','.join(f'{u}@{l}' for u, l in sorted(nodes))
+    es = ','.join(f'{u}>{v}:{show_bool(val)}:{show_bool(c)}'
+                  for u, v, val, c in sorted(edges, key=lambda e: (e[0], e[2])))
+    return f'N={ns};E={es}'
+
+
+def nx_graph_str(g):
+    nodes = [(u, d['level']) for u, d in g.nodes(data=True)]
+    edges = [(u, v, bool(d['value']), bool(d['complement']))
+             for u, v, d in g.edges(data=True)]
+    return graph_str(nodes, edges)
+
+
+def parse_dot(text):
+    """Abstract content of the DOT text written by `BDD.dump`:
+    nodes `(id, level, label)`, edges `(src, dst, solid, complemented)`, root references."""
+    import re
+    nodes = {}
+    edges = []
+    roots = []
+    level = None
+    for line in text.split('\n'):
+        line = line.strip()
+        m = re.match(r'^"L(-?\d+)" \[', line)
+        if m:
+            level = int(m.group(1))
+            continue
+        m = re.match(r'^"ref(-?\d+)" \[label="@(-?\d+)"\];$', line)
+        if m:
+            continue
+        m = re.match(r'^(\d+) \[label="([^"]*)"\];$', line)
+        if m:
+            nodes[int(m.group(1))] = (level, m.group(2))
+            continue
+        m = re.match(r'^(\d+) -> (\d+) \[(.*)\];$', line)
+        if m:
+            attrs = dict(re.findall(r'(\w+)="([^"]*)"', m.group(3)))
+            edges.append((int(m.group(1)), int(m.group(2)),
+                          attrs.get('style') == 'solid', attrs.get('taillabel') == '-1'))
+            continue
+        m = re.match(r'^"ref(-?\d+)" -> (\d+) \[(.*)\];$', line)
+        if m:
+            attrs = dict(re.findall(r'(\w+)="([^"]*)"', m.group(3)))
+            roots.append((int(m.group(1)), int(m.group(2)), attrs.get('taillabel') == '-1'))
+    return nodes, edges, roots
+
+
+def dot_graph_str(text):
+    nodes, edges, _roots = parse_dot(text)
+    return graph_str([(u, lv) for u, (lv, _lab) in nodes.items()], edges)
 
 
 class Impl:
@@ -336,6 +395,21 @@ class Impl:
         if op == 'set_roots':
             b.roots = set(map(int, split1(a[0])))
             return '-'
+        if op == 'to_nx':
+            roots = list(map(int, split1(a[0]))) if a else []
+            g = _bdd.to_nx(b, roots)
+            return nx_graph_str(g)
+        if op in ('to_dot', 'to_dot_all'):
+            roots = None if op == 'to_dot_all' else list(map(int, split1(a[0])))
+            os.makedirs(SCRATCH, exist_ok=True)
+            fn = os.path.join(SCRATCH, f'g{os.getpid()}.dot')
+            try:
+                b.dump(fn, roots=roots, filetype='dot')
+                text = open(fn).read()
+            finally:
+                if os.path.exists(fn):
+                    os.remove(fn)
+            return dot_graph_str(text)
         if op == 'state':
             return dump_state(b)
         raise RuntimeError('unknown op ' + op)
